@@ -229,6 +229,8 @@ class TupV:
 
     @property
     def t(self):
+        if self.cls == 'Complex':
+            return Ty('tuple', [REAL, REAL], 'Complex')
         if self.cls == 'BVec':
             return Ty('tuple', [BOOL] * len(self.items), 'BVec')
         if self.cls in ('Vec', 'Mat'):
